@@ -131,6 +131,28 @@ def run(chk, repo: Repo):
             _ugla(chk, repo, ci, fn)
     _r3(chk, repo)
     _r4(chk, repo)
+    _r2_rebuild(chk, repo)
+
+
+def _r2_rebuild(chk, repo):
+    """the stacked operator and the stacked right-hand side are two halves of one least-squares problem: a (re)initialisation that reaches its end
+    has assigned BOTH (definite assignment on every non-raising path). A path that refreshes one and keeps the other from an earlier target
+    (early return, assignment only under a flag) pairs the right-hand side of the new target with the operator of the old one."""
+    for mod, cls, fname, pair in (("cuqi/experimental/mcmc/_rto.py", "LinearRTO", "_precompute", ("self.M", "self.b_tild")),
+                                  ("cuqi/experimental/mcmc/_laplace_approximation.py", "UGLA", "_precompute", ("self.M", "self._b_tild"))):
+        ci = repo.cls(f"{mod}:{cls}")
+        fn = repo.method(ci, fname)[1]
+        g = CFG(fn)
+        problems = []
+        for attr in pair:
+            stores = {n.id for n in g.nodes if n.kind == "stmt" and isinstance(n.ast, ast.Assign) and any(path_of(t) == attr for t in n.ast.targets)}
+            if not stores:
+                raise AnchorError(f"{ci.qual}.{fname}: no assignment of {attr}")
+            if g.exit.id in g.reachable_from([g.entry.id], avoid_nodes=stores):
+                problems.append(f"`{attr}` is not assigned on every path to the end of {fname}")
+        chk.add("C06-R2", f"{ci.qual}.{fname}/rebuild-both", not problems, site(repo, fn), f"{pair[0]} and {pair[1]} assigned on every path",
+                "; ".join(problems) + ": after the sampler is given another target (as HybridGibbs does every sweep) the operator and the right-hand side "
+                "belong to different posteriors", fn)
 
 
 LK = "<lk>"          # canonical name of "the current likelihood block"
